@@ -384,7 +384,7 @@ PROPERTIES['C19'] = {
 }
 
 PROPERTIES['C01'] = {
-  'level_text': 'Bounded model checking of single topological edit / compaction steps of the real code from an ARBITRARY halfedge structure satisfying the representation invariant (pairs are an involution joining opposite directed edges, no degenerate triangle, indices in range, tombstoned triangles consistent): RemoveIfFolded, CollapseTri and GatherFaces/ReindexFace preserve the invariant; GatherFaces yields the same mesh up to face renumbering. One inductive step from every invariant state covers histories of any length for these operations.',
+  'level_text': 'Bounded model checking of single topological edit / compaction steps of the real code from an ARBITRARY halfedge structure satisfying the representation invariant (pairs are an involution joining opposite directed edges, no degenerate triangle, indices in range, tombstoned triangles consistent): RemoveIfFolded (with PairUp) and GatherFaces/ReindexFace preserve the invariant; GatherFaces yields the same mesh up to face renumbering. One inductive step from every invariant state covers histories of any length for these operations.',
   'level_note': 'Structure level, 4 triangles / 4 vertices. NOT covered: CollapseEdge/SwapEdge/DedupeEdge/SplitPinchedVerts as whole procedures, CreateHalfedges, Boolean face assembly, the triangulator, Subdivide, quickhull, level set; vertex referencedness and finiteness of the exported mesh.',
   'obligations': [
     dict(name='remove_if_folded', harness='c01_edgeops.cpp', entry='h_remove_if_folded', defs={'VF_T': 4, 'VF_V': 4}, backends=['minisat'], timeout=900, unwind={'default': 13},
